@@ -436,7 +436,19 @@ def make_fixture(env, fid, spec):
                                                     ["raise", "fail", "FX:" + fid + ".b"]], "FXM:" + fid])
                 _do_raise(env, None, ["raise", spec["setup_override"], "FX:" + fid])
 
+        if spec.get("cleanup_override"):
+            # the older style: the undo lives in an overridden cleanUp() (still supported), not in addCleanup
+            def cleanUp(self, raise_first=True):
+                if getattr(self, "_live", None) is not None:
+                    env.log("fixture_cleanup", fid)
+                    for chunks in self._live:
+                        del chunks[:]
+                    self._live = None
+                return super().cleanUp(raise_first)
+
         def _logged_cleanup(self):
+            if spec.get("cleanup_override"):
+                return
             env.log("fixture_cleanup", fid)
             for chunks in getattr(self, "_live", []):
                 del chunks[:]
@@ -648,6 +660,13 @@ def build_case(program, env, runner_factory=None, default_result=None):
         def id(self):
             return "prog.test"
 
+        if program.get("hook_adddetail"):
+            # a subclass that overrides the documented extension point (to mirror details somewhere, say): whatever
+            # the library itself attaches - tracebacks, failed expectations, mismatch details, reasons - goes through it
+            def addDetail(self, name, content_object):
+                env.log("adddetail_hook", name)
+                return super().addDetail(name, content_object)
+
     if program.get("force_attr") == "class":
         Prog.force_failure = True
     if program.get("force_attr") == "class_false":
@@ -657,6 +676,14 @@ def build_case(program, env, runner_factory=None, default_result=None):
     if program.get("own_fail"):
         Prog.failureException = OwnFail
 
+    if program.get("runner_attaches") and runner_factory is None:
+        # a custom runner factory (run_tests_with) that, while it is being made for a run, attaches a detail to the
+        # case and registers a cleanup on it - both belong to that run
+        def attaching_factory(case, handlers=None, last_resort=None):
+            run_actions(env, case, [["detail", "from-runner", "<<PR0>>", ["<<PR0>>".encode().hex()], "bin"],
+                                    ["cleanup", "c-runner", []]], "runner")
+            return testtools.RunTest(case, handlers, last_resort)
+        Prog.run_tests_with = staticmethod(attaching_factory)
     if program.get("rtw"):
         Prog.test = testtools.run_test_with(testtools.RunTest)(Prog.test)
     decor = program.get("decor")
